@@ -23,15 +23,25 @@ import (
 //       function on every exit (normally a deferred function registered before the first return).
 // Not decided here: that the guard itself is right (R-C16-3), the order of the teardown steps.
 
+// calls2 lists the calls of a body including those in function literals (deferred closures).
+func calls2(root ast.Node) []*ast.CallExpr { return calls(root, true) }
+
 func c14Teardown(e *c14env) {
 	c := e.c
-	clientsMapF := structField(c, mq, "Broker", "clients")
-	sessionF := structField(c, mq, "Client", "session")
+	// fields by type: Broker's map[string]*Client registry, Client's *Session
+	clientsMapF := c14fieldByType(c, "Broker", func(t types.Type) bool {
+		m, ok := t.Underlying().(*types.Map)
+		return ok && c14isStr(m.Key()) && c14isNamed(m.Elem(), mq, "Client")
+	})
+	sessionF := c14fieldByType(c, "Client", func(t types.Type) bool {
+		_, isPtr := t.(*types.Pointer)
+		return isPtr && c14isNamed(t, mq, "Session")
+	})
 	if clientsMapF == nil || sessionF == nil {
 		return
 	}
-	unsubName := "(*" + mq + ".TopicManager).unsubscribe"
-	allSubs := "(*" + mq + ".Session).allSubscribes"
+	unsubObj := e.role("unsubscribe").obj
+	allSubsObj := e.role("allSubscribes").obj
 	teardowns := map[*types.Func]bool{}
 	e16 := c16NewEnv(c)
 
@@ -49,7 +59,7 @@ func c14Teardown(e *c14env) {
 				return true
 			}
 			call, ok := ast.Unparen(as.Rhs[0]).(*ast.CallExpr)
-			if !ok || !calleeIs(f, call, allSubs) {
+			if !ok || c14calleeOf(f, call) != allSubsObj {
 				return true
 			}
 			sel, ok := ast.Unparen(call.Fun).(*ast.SelectorExpr)
@@ -64,10 +74,23 @@ func c14Teardown(e *c14env) {
 			}
 			return true
 		})
+		// the unsubscribe of the own filters may sit in a helper that receives them as a parameter
+		bind := c14bindings(f, 3)
+		isOwn := func(g *flow.Func, x ast.Expr) bool {
+			o := c14obj(g, x)
+			for t := range own {
+				if c14denotes(bind, g, o, t, 4) {
+					return true
+				}
+			}
+			return false
+		}
 		var unsubs []*ast.CallExpr
-		for _, call := range callsTo(f, fd.Body, false, unsubName) {
-			if len(call.Args) >= 1 && own[c14obj(f, call.Args[0])] {
-				unsubs = append(unsubs, call)
+		for _, g := range reach(f, 3) {
+			for _, call := range c14callsToFn(g, g.Body, false, unsubObj) {
+				if len(call.Args) >= 1 && isOwn(g, call.Args[0]) {
+					unsubs = append(unsubs, call)
+				}
 			}
 		}
 		if len(unsubs) == 0 {
@@ -81,29 +104,91 @@ func c14Teardown(e *c14env) {
 		for _, u := range unsubs {
 			isUnsub[u] = true
 		}
-		// registered-connection lookups: r, ok := <x>.clients[...]
-		type lookup struct{ val, ok *ast.Ident }
+		// registered-connection lookups: r, ok := <x>.clients[...] — in f or in a helper (a bool
+		// method `ownsClientID()` called under the broker lock)
+		type lookup struct {
+			g       *flow.Func
+			val, ok *ast.Ident
+			recv    *ast.Ident
+		}
 		var lookups []lookup
-		ast.Inspect(fd.Body, func(n ast.Node) bool {
-			if as, ok := n.(*ast.AssignStmt); ok && len(as.Rhs) == 1 && len(as.Lhs) == 2 {
-				if ix, ok := ast.Unparen(as.Rhs[0]).(*ast.IndexExpr); ok {
-					if _, isClients := c14fieldRecv(f, ix.X, clientsMapF); isClients {
-						v, _ := as.Lhs[0].(*ast.Ident)
-						k, _ := as.Lhs[1].(*ast.Ident)
-						if v != nil && k != nil && v.Name != "_" && k.Name != "_" {
-							lookups = append(lookups, lookup{v, k})
+		for _, g := range reach(f, 3) {
+			g := g
+			gd, _ := g.Node.(*ast.FuncDecl)
+			var grecv *ast.Ident
+			if gd != nil && gd.Recv != nil && len(gd.Recv.List) == 1 && len(gd.Recv.List[0].Names) == 1 {
+				grecv = gd.Recv.List[0].Names[0]
+			}
+			if grecv == nil || !c14isNamed(g.Info.Defs[grecv].Type(), mq, "Client") {
+				continue
+			}
+			ast.Inspect(g.Body, func(n ast.Node) bool {
+				if as, ok := n.(*ast.AssignStmt); ok && len(as.Rhs) == 1 && len(as.Lhs) == 2 {
+					if ix, ok := ast.Unparen(as.Rhs[0]).(*ast.IndexExpr); ok {
+						if _, isClients := c14fieldRecv(g, ix.X, clientsMapF); isClients {
+							v, _ := as.Lhs[0].(*ast.Ident)
+							k, _ := as.Lhs[1].(*ast.Ident)
+							if v != nil && k != nil && v.Name != "_" && k.Name != "_" {
+								lookups = append(lookups, lookup{g, v, k, grecv})
+							}
 						}
 					}
 				}
-			}
-			return true
-		})
-		var recvID *ast.Ident
-		if fd.Recv != nil && len(fd.Recv.List) == 1 && len(fd.Recv.List[0].Names) == 1 {
-			recvID = fd.Recv.List[0].Names[0]
+				return true
+			})
 		}
 		const ev = "ev:c14:unsubscribed"
+		// interpret in place only the helpers that matter here (those containing the unsubscribe of
+		// the own filters, a registry lookup or a read of the supersession mark, and their callers)
+		relevant := map[types.Object]bool{}
+		rfs := reach(f, 3)
+		direct := func(g *flow.Func) bool {
+			for _, l := range lookups {
+				if l.g.Body == g.Body {
+					return true
+				}
+			}
+			hit := false
+			ast.Inspect(g.Body, func(n ast.Node) bool {
+				if call, ok := n.(*ast.CallExpr); ok && isUnsub[call] {
+					hit = true
+				}
+				return !hit
+			})
+			if !hit && e16 != nil && len(e16.supFacts(g, func(ast.Expr) bool { return false })) > 0 {
+				hit = true
+			}
+			return hit
+		}
+		for _, g := range rfs {
+			if gd, ok := g.Node.(*ast.FuncDecl); ok && direct(g) {
+				relevant[e.funcObj(gd)] = true
+			}
+		}
+		for changed := true; changed; {
+			changed = false
+			for _, g := range rfs {
+				gd, ok := g.Node.(*ast.FuncDecl)
+				if !ok || relevant[e.funcObj(gd)] {
+					continue
+				}
+				for _, call := range calls(g.Body, false) {
+					if fo := c14calleeOf(g, call); fo != nil && relevant[fo] {
+						relevant[e.funcObj(gd)] = true
+						changed = true
+						break
+					}
+				}
+			}
+		}
+		base := inlineSamePkg(f)
 		res := analyze(c, f, flow.Config{NoHavoc: true,
+			Inline: func(call *ast.CallExpr, callee *types.Func) *flow.Func {
+				if callee == nil || !relevant[callee] {
+					return nil
+				}
+				return base(call, callee)
+			},
 			OnCall: func(st *flow.State, call *ast.CallExpr, callee types.Object, d bool) {
 				if isUnsub[call] {
 					st.Set(ev, flow.True)
@@ -115,18 +200,21 @@ func c14Teardown(e *c14env) {
 		// the supersession mark written by the takeover branch of handleConn (read by role, see c16_supersede.go)
 		var sup []c16SupFact
 		if e16 != nil {
-			sup = e16.supFacts(f, func(x ast.Expr) bool {
-				for _, l := range lookups {
-					if o := c14obj(f, x); o != nil && o == c14obj(f, l.val) {
-						return true
+			for _, g := range reach(f, 3) {
+				g := g
+				sup = append(sup, e16.supFacts(g, func(x ast.Expr) bool {
+					for _, l := range lookups {
+						if o := c14obj(g, x); o != nil && l.g.Body == g.Body && o == c14obj(g, l.val) {
+							return true
+						}
 					}
-				}
-				return false
-			})
+					return false
+				})...)
+			}
 		}
 		lost := func(st *flow.State) bool {
 			for _, l := range lookups {
-				if recvID != nil && st.Is(f.VarKey(l.ok), flow.True) && st.Is(f.EqKey(l.val, recvID), flow.False) {
+				if st.Is(l.g.VarKey(l.ok), flow.True) && st.Is(l.g.EqKey(l.val, l.recv), flow.False) {
 					return true
 				}
 			}
@@ -161,7 +249,47 @@ func c14Teardown(e *c14env) {
 		return
 	}
 
-	// (b) the reader runs a teardown on every exit
+	// (b) the reader runs a teardown on every exit. A method all of whose exits run a teardown on
+	// its own receiver counts as one too (the deferred closure of the read loop moved into a method).
+	tdEvent := func(g *flow.Func, recv types.Object) func(st *flow.State, call *ast.CallExpr, callee types.Object, d bool) {
+		return func(st *flow.State, call *ast.CallExpr, callee types.Object, d bool) {
+			fo := c14calleeOf(g, call)
+			if fo == nil || !teardowns[fo] {
+				return
+			}
+			if x := c14recvOf(g, call); x != nil && c14obj(g, x) == recv {
+				st.Set("ev:c14:tornDown", flow.True)
+			}
+		}
+	}
+	for round := 0; round < 2; round++ {
+		e.decls(func(g *flow.Func, gd *ast.FuncDecl) {
+			recv := c14recvObj(g, gd)
+			o := e.funcObj(gd)
+			if recv == nil || o == nil || teardowns[o] || !c14isNamed(recv.Type(), mq, "Client") {
+				return
+			}
+			calls := false
+			for _, call := range calls2(gd.Body) {
+				if fo := c14calleeOf(g, call); fo != nil && teardowns[fo] {
+					calls = true
+				}
+			}
+			if !calls {
+				return
+			}
+			res := analyze(c, g, flow.Config{NoHavoc: true, OnCall: tdEvent(g, recv)})
+			if res == nil || len(res.Exits) == 0 {
+				return
+			}
+			for _, ex := range res.Exits {
+				if !ex.State.Is("ev:c14:tornDown", flow.True) {
+					return
+				}
+			}
+			teardowns[o] = true
+		})
+	}
 	readers := 0
 	e.decls(func(f *flow.Func, fd *ast.FuncDecl) {
 		recv := c14recvObj(f, fd)
@@ -180,16 +308,7 @@ func c14Teardown(e *c14env) {
 		readers++
 		cons := declName(e.pkg, fd)
 		const ev = "ev:c14:tornDown"
-		res := analyze(c, f, flow.Config{NoHavoc: true,
-			OnCall: func(st *flow.State, call *ast.CallExpr, callee types.Object, d bool) {
-				fo, ok := callee.(*types.Func)
-				if !ok || !teardowns[fo] {
-					return
-				}
-				if sel, ok := ast.Unparen(call.Fun).(*ast.SelectorExpr); ok && c14obj(f, sel.X) == recv {
-					st.Set(ev, flow.True)
-				}
-			}})
+		res := analyze(c, f, flow.Config{NoHavoc: true, OnCall: tdEvent(f, recv)})
 		if res == nil {
 			return
 		}
@@ -217,11 +336,11 @@ func c14Teardown(e *c14env) {
 func c14Pairing(e *c14env) {
 	c := e.c
 	topicsF := structField(c, mq, "SessionInfo", "Topics")
-	f := fn(c, mq, "Session", "allSubscribes")
-	if topicsF == nil || f == nil {
+	f := e.role("allSubscribes").f
+	if topicsF == nil {
 		return
 	}
-	cons := fname(mq, "Session", "allSubscribes")
+	cons := e.role("allSubscribes").cons
 	// result variables: the slice-typed identifiers of the return statements
 	var subV, qosV types.Object
 	ast.Inspect(f.Body, func(n ast.Node) bool {
